@@ -37,7 +37,8 @@ order, with redefinitions — the program `P = build is` serializes without erro
 a list `is'` with `build is' = build is` (the same containers: the reparsed program equals `P`), and
 serializing THAT program gives the identical token list. -/
 theorem C02_roundtrip_partial (F : NumFmt) (is : List Instruction)
-    (hp : ∀ i ∈ is, parsedInstr i = true) (hk : ∀ i ∈ is, provedKind i = true) :
+    (hp : ∀ i ∈ is, parsedInstr i = true) (hk : ∀ i ∈ is, provedKind i = true)
+    (hn : ∀ i ∈ is, numTokInstr F i = true) :
     ∃ ts, printProgramTokens F (build is).listing = .ok ts ∧
       ∃ is', parseProgram ts = .ok is' [] ∧ build is' = build is ∧
         printProgramTokens F (build is').listing = .ok ts := by
@@ -48,14 +49,15 @@ theorem C02_roundtrip_partial (F : NumFmt) (is : List Instruction)
     intro i hi
     obtain ⟨t, r, ht, _⟩ := toks_head F i
     exact blockOk_of_noNL _ (by rw [ht]; simp)
-      (fun t ht h => noNL_of_provedKind F i (hk i (hL i hi)) (h ▸ ht))
+      (fun t ht h => noNL_of_provedKind F i (hk i (hL i hi)) (hn i (hL i hi)) (h ▸ ht))
   have hcollapse : collapseNL (programRaw F (build is).listing) = programRaw F (build is).listing :=
     collapseNL_of_noAdj _ (noAdjNL_programRaw F _ hblock).1
   have hprint : printProgramTokens F (build is).listing = .ok (programRaw F (build is).listing) := by
     simp [printProgramTokens, herr, hcollapse]
   refine ⟨_, hprint, (build is).listing, ?_, build_listing_build is, ?_⟩
   · have := parseProgram_programRaw F id (build is).listing
-      (fun i hi => rt_of_provedKind F _ i (hp i (hL i hi)) (hk i (hL i hi)))
+      (fun i hi => rt_of_provedKind F _ i (hp i (hL i hi)) (hk i (hL i hi)) (hn i (hL i hi))
+        (length_toks_le_programRaw F _ i hi))
     simpa using this
   · rw [build_listing_build]; exact hprint
 
@@ -67,7 +69,7 @@ example : ∃ ts, printProgramTokens stdFmt (build
        .declaration ⟨"ro", ⟨.real, 2⟩, some ⟨"x", [⟨1, .bit⟩]⟩⟩,
        .measurement ⟨none, .fixed 0, some ⟨"ro", 0⟩⟩]).listing = .ok ts ∧
     ∃ is', parseProgram ts = .ok is' [] :=
-  let ⟨ts, h1, is', h2, _⟩ := C02_roundtrip_partial stdFmt _ (by decide) (by decide)
+  let ⟨ts, h1, is', h2, _⟩ := C02_roundtrip_partial stdFmt _ (by decide) (by decide) (by decide)
   ⟨ts, h1, is', h2⟩
 
 /-! ## the three classes for which the full statement is false of the code (known findings)
